@@ -51,13 +51,13 @@ var faultableOps = map[string]bool{
 }
 
 func faultKinds(op string) []string {
-	// "returned error" comes in three flavours: a plain error, a timeout-class error that wraps
+	// "returned error" comes in three flavours: a plain error, a Temporary()/Timeout() error without context inside, a timeout-class error that wraps
 	// context.DeadlineExceeded (the storage's own deadline, the request is alive) and an error that wraps
 	// context.Canceled (a closed connection pool)
 	if op == "GetMetadataSigningKey" || op == "GetResponseSigningKey" {
-		return []string{sim.FaultError, sim.FaultTimeout, sim.FaultPoolClosed, sim.FaultNilRecord, sim.FaultKeyNoCert, sim.FaultCertNoKey, sim.FaultEmptyCert}
+		return []string{sim.FaultError, sim.FaultTimeout, sim.FaultTemporary, sim.FaultPoolClosed, sim.FaultNilRecord, sim.FaultKeyNoCert, sim.FaultCertNoKey, sim.FaultEmptyCert}
 	}
-	return []string{sim.FaultError, sim.FaultTimeout, sim.FaultPoolClosed}
+	return []string{sim.FaultError, sim.FaultTimeout, sim.FaultTemporary, sim.FaultPoolClosed}
 }
 
 func c10Scenarios() []c10Scenario {
